@@ -142,9 +142,9 @@ class QTensorLinear(torch.autograd.Function):
 @register_qtensor_func([torch.nn.functional.linear])
 def linear(func, input, other, bias=None):
     # The scales can only be applied to the output if they are not along the contracted dimension:
-    # the input must be quantized per-tensor and the weights per-tensor or along their first axis
+    # the input must be quantized per-tensor and the weights, a matrix, per-tensor or along their first axis
     if isinstance(input, QBytesTensor) and input.axis is not None:
         input = input.dequantize()
-    if isinstance(other, QBytesTensor) and other.axis is not None and (other.ndim != 2 or other.axis != 0):
+    if isinstance(other, QBytesTensor) and (other.ndim != 2 or other.axis not in (None, 0)):
         other = other.dequantize()
     return QTensorLinear.apply(input, other, bias)
